@@ -9,7 +9,7 @@ use crate::session::{assemble_fresh as assemble, assemble_here, Asm};
 use crate::util;
 use serde_json::{json, Value};
 
-pub const SOURCES: [(&str, &str); 16] = [
+pub const SOURCES: [(&str, &str); 26] = [
     ("validA", "start add r0 r0 #1\nloop br loop\ndata .fill x10\n ld r1 data\n"),
     ("validB-reuses-labels", "data .fill x5\nstart ld r0 data\nloop add r0 r0 #-1\nbrp loop\nhalt\n"),
     ("lexer-failure-after-label", "start add r0 r0 #1\n .bogus\n"),
@@ -27,6 +27,17 @@ pub const SOURCES: [(&str, &str); 16] = [
     ("valid-forward-refs-elsewhere", "add r0 r0 r0\nbr fwd\nadd r1 r1 r1\nld r2 later\nlater .fill x9\nfwd halt\n"),
     ("uses-undefined-fwd", "br fwd\nhalt\n"),
     ("emission-failure-after-forward-ref", "lea r0 later\nbr far\n.blkw x200\nfar halt\nlater .fill x1\n"),
+    // one source per remaining error site (each may leave half-finished state behind)
+    ("lex-unclosed-string", "start add r0 r0 r0\nloop .stringz \"open\n"),
+    ("lex-bad-literal", "start .fill #99999\n"),
+    ("lex-unknown-token", "start add r0 r0 r0\n@\n"),
+    ("lex-stack-extension-off", "start add r0 r0 r0\npush r0\nhalt\n"),
+    ("preproc-bad-literal", "data .fill add\n"),
+    ("preproc-no-string", "data .stringz 5\n"),
+    ("parse-literal-range", "start add r0 r0 #16\n"),
+    ("parse-orig-twice", ".orig x3000\nstart halt\n.orig x4000\n"),
+    ("parse-label-at-end", "start halt\nloop\n"),
+    ("first-word-is-instruction", "add r0 r0 #1\nloop brnzp loop\nhalt\n"),
 ];
 
 fn summarize(a: &Asm) -> String {
@@ -73,7 +84,7 @@ fn judge(seq: &[usize], baseline: &[Asm]) -> Option<(String, String)> {
 }
 
 pub fn run(ctx: &Ctx) -> i32 {
-    let max_len = ctx.tier.pick(4, 5);
+    let max_len = ctx.tier.pick(3, 4);
     let k = SOURCES.len();
     // Baseline: every source on its own fresh thread, twice (determinism of the oracle itself).
     let mut baseline = Vec::new();
@@ -142,7 +153,7 @@ pub fn run(ctx: &Ctx) -> i32 {
         ctx,
         acc,
         Level { category: "model_checking", bfs: Some((n, n, n, max_len as u64)) },
-        "every sequence of length 1..=max_len over 16 sources (valid, failing at each stage, sharing and re-using label names) assembled on one thread with reset_state()+reclaim between elements; each element's result (image, origin, breakpoints, spans, or diagnostic incl. rendering) compared with the same source on a fresh thread; states = sequences (no merging: equality of the merged states is the property itself); distinct_nontrivial = sequences of length >= 2 that agreed",
+        "every sequence of length 1..=max_len over 26 sources (valid ones, and one failing at every error site of the assembler) (valid, failing at each stage, sharing and re-using label names) assembled on one thread with reset_state()+reclaim between elements; each element's result (image, origin, breakpoints, spans, or diagnostic incl. rendering) compared with the same source on a fresh thread; states = sequences (no merging: equality of the merged states is the property itself); distinct_nontrivial = sequences of length >= 2 that agreed",
         true,
         &["ok-after-failure", "failure-after-ok", "some-source-ok", "stage-lex", "stage-parse", "stage-backpatch", "stage-emit"],
         &["a fresh OS thread has the thread-local state of a fresh process", "diagnostic rendering is deterministic for equal (report, source)"],
